@@ -90,18 +90,13 @@ Definition add3 (s : state) (v d : addr) (a : Z) : state :=
   State (zadd (v, d) a (eff s)) (zadd v a (vtot s)) (zadd d a (deff s)) (dbnd s) (mat s)
         (vrecs s) (vprev s) (pend s) (g_staked s) (g_withdrawn s) (g_pen s) (g_in s) (g_out s).
 
-(* delegation.MinusFromAddress: three read-check-write steps; an error returns at once and
-   leaves the earlier writes in place.  Result: new state and how many steps succeeded. *)
+(* delegation.MinusFromAddress (since fix cb71748): the three amounts are checked before any of them
+   is written — all or nothing.  Result: new state and how many records were written (0 or 3). *)
 Definition minus3 (s : state) (v d : addr) (a : Z) : state * nat :=
-  if zget (vtot s) v - a <? 0 then (s, 0%nat) else
-  let s1 := State (eff s) (zadd v (- a) (vtot s)) (deff s) (dbnd s) (mat s) (vrecs s) (vprev s) (pend s)
-                  (g_staked s) (g_withdrawn s) (g_pen s) (g_in s) (g_out s) in
-  if zget (eff s) (v, d) - a <? 0 then (s1, 1%nat) else
-  let s2 := State (zadd (v, d) (- a) (eff s)) (vtot s1) (deff s) (dbnd s) (mat s) (vrecs s) (vprev s) (pend s)
-                  (g_staked s) (g_withdrawn s) (g_pen s) (g_in s) (g_out s) in
-  if zget (deff s) d - a <? 0 then (s2, 2%nat) else
-  (State (eff s2) (vtot s2) (zadd d (- a) (deff s)) (dbnd s) (mat s) (vrecs s) (vprev s) (pend s)
-         (g_staked s) (g_withdrawn s) (g_pen s) (g_in s) (g_out s), 3%nat).
+  if (zget (vtot s) v - a <? 0) || (zget (eff s) (v, d) - a <? 0) || (zget (deff s) d - a <? 0)
+  then (s, 0%nat)
+  else (State (zadd (v, d) (- a) (eff s)) (zadd v (- a) (vtot s)) (zadd d (- a) (deff s)) (dbnd s) (mat s)
+              (vrecs s) (vprev s) (pend s) (g_staked s) (g_withdrawn s) (g_pen s) (g_in s) (g_out s), 3%nat).
 
 (* ---- STAKE : runCheckStake ---- *)
 Definition stake_update (s : state) (v d : addr) (h m : Z) : option bool :=
@@ -161,6 +156,7 @@ Definition do_unstake (s : state) (v d : addr) (a : Z) (frozen req_open : bool) 
     match vrecs s !! v with
     | None => (s, false)                                   (* HandleUnstake: vs.Get fails *)
     | Some r =>
+      if vr_staking r - a <? 0 then (s, false) else       (* HandleUnstake (e681066): negative stake refused *)
       if purge_block then (s, false) else
       if fee_fail then (s, false) else
       let r' := VRec (vr_saddr r) (vr_staking r - a) (wrap64 (vr_staking r - a)) in
@@ -196,6 +192,7 @@ Definition apply_pending (blocked : list addr) (e : addr * Z) (recs : gmap addr 
   match recs !! e.1 with
   | None => recs
   | Some r => if bool_decide (e.1 ∈ blocked) then recs
+              else if vr_staking r - e.2 <? 0 then recs      (* HandleUnstake (e681066) *)
               else <[e.1 := VRec (vr_saddr r) (vr_staking r - e.2) (wrap64 (vr_staking r - e.2))]> recs
   end.
 
@@ -205,8 +202,12 @@ Definition do_begin (s : state) (blocked : list addr) : state :=
         (g_staked s) (g_withdrawn s) (g_pen s) (g_in s) (g_out s).
 
 (* ---- EndBlock: GetEndBlockUpdate ---- *)
+(* since fix e681066 the record is deleted only if the CURRENT record is powerless as well *)
+Definition powerless_now (recs : gmap addr vrec) (v : addr) : bool :=
+  match recs !! v with Some r => vr_power r <=? 0 | None => false end.
 Definition delete_powerless (prev recs : gmap addr vrec) : gmap addr vrec :=
-  foldr (fun e acc => if vr_power e.2 <=? 0 then delete e.1 acc else acc) recs (map_to_list prev).
+  foldr (fun e acc => if (vr_power e.2 <=? 0) && powerless_now recs e.1 then delete e.1 acc else acc)
+        recs (map_to_list prev).
 
 (* UpdateWithdrawReward *)
 Definition credit_entry (e : addr * Z) (b : gmap addr Z) : gmap addr Z :=
@@ -228,7 +229,8 @@ Definition verdict (s : state) (e : addr * Z * Z) : state :=
     let d := vr_saddr r in
     let p := penalty_amount (zget (vtot s) v) pct dec in
     let '(s1, n) := minus3 s v d p in
-    State (eff s1) (vtot s1) (deff s1) (dbnd s1) (mat s1) (vrecs s1) (vprev s1) ((v, p) :: pend s1)
+    State (eff s1) (vtot s1) (deff s1) (dbnd s1) (mat s1) (vrecs s1) (vprev s1)
+          (match n with 3%nat => (v, p) :: pend s1 | _ => pend s1 end)     (* cb71748 *)
           (g_staked s1) (g_withdrawn s1)
           (match n with 3%nat => zadd d p (g_pen s1) | _ => g_pen s1 end) (g_in s1) (g_out s1)
   end.
@@ -284,8 +286,8 @@ Definition trig_negative (o : op) : bool :=
   match op_amount o with Some a => (a <? 0) | None => false end.
 Definition trig_amount (o : op) : bool := trig_narrow o || trig_negative o.
 
-(* C11.validator_record_deleted_with_stake : the end-block deletes a v_ record (power <= 0 one
-   version ago) although stake has meanwhile been added to that validator *)
+(* C11.validator_record_deleted_with_stake (FIXED by e681066; kept to state the former witness): the
+   previous version's record was powerless while stake has meanwhile been added *)
 Definition trig_deleted_with_stake (s : state) (o : op) : bool :=
   match o with
   | OEnd h _ => (1 <? h) &&
@@ -294,6 +296,15 @@ Definition trig_deleted_with_stake (s : state) (o : op) : bool :=
                         | Some r => negb (vr_staking r =? 0) || negb (zget (vtot s) e.1 =? 0)
                         | None => false end)
               (map_to_list (vprev s))
+  | _ => false
+  end.
+
+(* C11.postponed_penalty_blocked : the penalty decided in the last end-block is applied to the v_
+   record by HandleUnstake in BeginBlock, which refuses it within 2 blocks of a purge of that
+   validator — the delegation records were reduced, the record never is *)
+Definition trig_postponed_blocked (s : state) (o : op) : bool :=
+  match o with
+  | OBegin blocked => existsb (fun e => bool_decide (e.1 ∈ blocked)) (pend s)
   | _ => false
   end.
 
